@@ -393,7 +393,7 @@ pub fn script(g: GenCfg) -> BoxedStrategy<Script> {
     });
     (pre, vec(op(&g), 0..max_ops), any::<u64>(), vec(any::<u16>(), 1..6)).prop_map(move |(mut p, ops, layout_seed, cl)| {
         p.extend(ops);
-        Script { mode, layout_seed, ops: p, cleanup: if cleanup { cl } else { vec![] } }
+        Script { mode, layout_seed, ops: p, cleanup: if cleanup { cl } else { vec![] }, arena_seed: None }
     })
     .boxed()
 }
